@@ -218,6 +218,8 @@ def _digest(o):
     if s is not None and s.x is not None:
         h.update(np.ascontiguousarray(s.x, dtype=float).tobytes())
         h.update(repr((s.nf, s.nx, s.nruns, s.flag, repr(float(s.obj)))).encode())
+        if s.diagnostic_info is not None:
+            h.update(s.diagnostic_info.to_json(double_precision=15).encode())      # e.g. the slow-iteration marks: state that need not move x
     return {"ncalls": len(o.calls), "digest": h.hexdigest(), "exc": repr(o.exc) if o.exc is not None else None,
             "summary": None if s is None else [int(s.nf), int(s.nruns), int(s.flag)]}
 
@@ -239,7 +241,7 @@ def _fresh_process(case_list):
     raise core.HarnessError("fresh-process run failed: %s" % (r.stderr[-400:],))
 
 
-ISO_PROF = sc.make_prof(fams=["lin", "sinlin", "rosen", "hashed"], noise=False, avg=False, diag=0.0, reg=0.0, zero_resid=0.0, print_progress=0.0,
+ISO_PROF = sc.make_prof(fams=["lin", "sinlin", "rosen", "hashed"], noise=False, avg=False, diag=1.0, reg=0.0, zero_resid=0.0, print_progress=0.0,
                         maxfuns=[20, 40], nmax=3, opts_list=[0, 2, 3, 4, 5, 6, 7, 12, 13], route_bias=0.0, rhoend_exps=[2, 3])
 
 
